@@ -47,7 +47,16 @@ def run(ctx):
     ont = prog.body(REACTOR + 'on_new_tasks')
     wr = [(bi, s) for bi, s, v, pl in state_writes(ont, TRS) if v == 'Waiting']
     ctx.require(wr, 'R03.1: Waiting write in on_new_tasks missing')
-    cnt = ont.locals_named('count')
+    # the counter: the u32 local captured by `&mut` into the retain closure
+    cnt = []
+    for bi_ in ont.reachable():
+        for s_ in ont.stmts(bi_):
+            if s_['k'] == 'a' and s_['rv'][0] == 'agg' and s_['rv'][1][0] == 'closure' and norm(s_['rv'][1][1]) == cb.path:
+                for o_ in s_['rv'][2]:
+                    tgt = ont._mutref_target(op_local(o_)) if op_local(o_) is not None else None
+                    if tgt is not None and ont.locals[tgt][0] == 'u32':
+                        cnt.append(tgt)
+    ctx.require(cnt, 'R03.1: counter captured by the retain closure')
     okd = False
     for bi, s in wr:
         l = op_local(s['rv'][1])
